@@ -149,4 +149,12 @@ PROPS = {
         need_events=["server_sequences", "client_sequences", "app_invocations", "gated_messages"],
         assumptions=TRUST + ["the reference gate: pre --acceptable CER--> ok, pre --rejected CER--> closed; only in ok does an application message cause exactly one invocation of the handler the dispatch rule of C09 selects"],
     ),
+    "C12": dict(
+        level="fault_enumeration",
+        rule="sm.Client.NewConn over the in-memory transport against scripted peers under synctest's virtual clock: the product of MaxRetransmits N in {0..3} x RetransmitInterval {1 s, 2.5 s} x the CER index k in {never, 1..N+2} that gets the reply x reply kind {success CEA sharing an advertised application, failing result code, no Result-Code, no Origin-Host, success without application, success with an application unknown to the dictionary, disconnect} x reply delay {0, interval/2, interval-1ms}; every successful script is continued with every sequence of 0..3 extra CEAs over {duplicate success, late failure, malformed} and then an application answer; client configurations rotate over 0..3 advertised application kinds, 0/1/2 configured addresses and IPv4/IPv6 local endpoints. Oracle: CER count <= N+1, byte-identical, Write entries >= interval apart (virtual time), identity / addresses / applications as configured; dial outcome and error class as scripted; transport closed iff failure; after success close count 0 and the answer dispatched exactly once; no reader panic in the log; no goroutine left at the end of the bubble. distinct_nontrivial counts distinct (N, k, reply kind, number of extra CEAs) classes.",
+        runs=dict(quick=[race("TestC12", 12)], thorough=[race("TestC12", 16, 6000), plain("TestC12", 8, 3000)]),
+        floor=dict(quick=2000, thorough=4000),
+        need_events=["successful_handshakes", "failed_handshakes", "extra_ceas"],
+        assumptions=TRUST + ["'sharing an application with the client' is decided only for the two unambiguous kinds of CEA: applications the client advertised (must succeed) and applications absent or unknown to the dictionary (must fail)"],
+    ),
 }
